@@ -576,6 +576,29 @@ func (c14) Run(ctx *core.RunCtx) {
 	if params.RingType() == ring.ConjugateInvariant {
 		ctx.Count("probe.conjugate-invariant-ring", 1)
 	}
+	// chains that start with a prime of 60 bits and go on with small ones (the margins of lazily reduced sums are
+	// those of the largest prime in use, not of the prime at the level), with keys of many narrow digits
+	steep := ch.Chance("steep-modulus-chain", 1, 8)
+	if steep {
+		sp := spec
+		sp.LogQ = []int{60, 30 + ch.Draw("steep-q1", 7), 30 + ch.Draw("steep-q2", 7)}
+		if len(sp.LogP) > 1 {
+			sp.LogP = sp.LogP[:1]
+		}
+		c := ctx.Cached(sp.Key(), func(*core.Xoshiro) any {
+			pp, err := sp.Build()
+			if err != nil {
+				return err
+			}
+			return &pp
+		})
+		if pp, ok := c.(*rlwe.Parameters); ok {
+			params, spec = *pp, sp
+			ctx.Count("probe.steep-modulus-chain", 1)
+		} else {
+			steep = false
+		}
+	}
 	// the error distribution of the parameters is not always the default one (every protocol object, also one
 	// obtained by ShallowCopy, samples with it; the noise bounds below are derived from it)
 	// ... nor the secret distribution: one run in three has sparse secrets (1 to 3 non-zero coefficients), which
@@ -619,6 +642,9 @@ func (c14) Run(ctx *core.RunCtx) {
 		}
 		if ch.Bool("base2") {
 			in.b2 = 1 + ch.Draw("base2-val", 30)
+		}
+		if steep && ch.Bool("narrow-digits") {
+			in.b2 = 4 + ch.Draw("narrow-digit-bits", 5)
 		}
 		if in.kind == kCPK {
 			in.lq, in.lp, in.b2 = params.MaxLevelQ(), params.MaxLevelP(), 0
